@@ -141,6 +141,7 @@ def explore(ctx):
         ctx.sample(meta[0])
     agl_correspondence(ctx, [b for m in meta for _, b in m["impl_rename_map"]])
     compile_level(ctx)
+    variable_section(ctx)
 
 
 def agl_correspondence(ctx, finals):
@@ -190,6 +191,74 @@ def agl_correspondence(ctx, finals):
     for v, case in zip(vals, meta):
         if v is not None and v != 3:
             ctx.corr_mismatch(case, "Gallina agl_decode differs from fontTools.agl.toUnicode on a generated-style name")
+
+
+def variable_section(ctx):
+    """variable fonts (glyf+gvar and CFF2) from format-5 documents with TWO <variable-font> elements: one over the whole
+    Weight axis, one over its upper half with its own default.  Production names on vs off: every table but the name carriers
+    byte-identical; final names unique and legal; where every source taking part in a variable font supplies the same
+    PostScript name for a glyph, that name is the final one (even cases: all masters agree; odd cases: the master at the low
+    end, outside the second variable font, supplies other names than the two masters inside it)."""
+    import re, ufo2ft
+    from harness import dsgen
+    from fontTools.ttLib import TTFont
+    from fontTools.designspaceLib import VariableFontDescriptor, RangeAxisSubsetDescriptor
+    rng = ctx.subrng("variable-names")
+    for i in range(ctx.budget(8, 32)):
+        lib = ["ufoLib2", "defcon"][i % 2]
+        fn = ["compileVariableTTFs", "compileVariableCFF2s"][(i // 2) % 2]
+        base = dsgen.base_master(rng, anchors=False)
+        masters = [base] + [dsgen.perturb(rng, base, k) for k in (1, 2)]
+        names = [g["name"] for g in base["glyphs"]]
+        for k, m in enumerate(masters):
+            pre = "low" if (i % 2 == 1 and k == 0) else "ps"
+            m["lib"] = dict(m.get("lib", {}), **{"public.postscriptNames": {n: "%s_%s.x" % (pre, re.sub(r"[^A-Za-z0-9]", "", n)) for n in names[:-1]}})
+        ds, fonts = dsgen.make_designspace(rng, masters, lib, instances=False)
+        ds.formatVersion = "5.0"
+        ds.addVariableFont(VariableFontDescriptor(name="Whole", axisSubsets=[RangeAxisSubsetDescriptor(name="Weight")]))
+        ds.addVariableFont(VariableFontDescriptor(name="Upper", axisSubsets=[
+            RangeAxisSubsetDescriptor(name="Weight", userMinimum=500, userDefault=500, userMaximum=900)]))
+        inside = {"Whole": [0, 1, 2], "Upper": [1, 2]}
+        case = {"function": fn, "lib": lib, "font": jsonable(masters[0]), "postscriptNames": [m["lib"]["public.postscriptNames"] for m in masters],
+                "variable_fonts": {"Whole": "Weight 100..900 (default 100)", "Upper": "Weight 500..900 (default 500)"}}
+        ctx.count(); ctx.klass("%s/two variable fonts/%s" % (fn, "low master names differ" if i % 2 else "same names")); ctx.nontriv(("vnames", i, ctx.scale))
+        try:
+            res = {}
+            for upn in (True, False):
+                out = getattr(ufo2ft, fn)(ds, useProductionNames=upn)
+                for vf, tt in out.items():
+                    buf = io.BytesIO(); tt.save(buf); buf.seek(0)
+                    res[(vf, upn)] = TTFont(buf)
+        except Exception as e:
+            ctx.spec_failure(case, "%s raised %s: %s\n%s" % (fn, type(e).__name__, e, traceback.format_exc()[-1200:]))
+            continue
+        for vf in ("Whole", "Upper"):
+            on, off = res.get((vf, True)), res.get((vf, False))
+            if on is None or off is None:
+                ctx.spec_failure(dict(case, variable_font=vf), "variable font %r was not built (got %r)" % (vf, sorted(res)))
+                continue
+            if sorted(on.keys()) != sorted(off.keys()):
+                ctx.spec_failure(dict(case, variable_font=vf), "table sets differ: %r vs %r" % (sorted(on.keys()), sorted(off.keys())))
+                continue
+            for tag in on.reader.keys():
+                if tag in ("post", "CFF2", "CFF "):
+                    continue
+                a, b = on.reader[tag], off.reader[tag]
+                if tag == "head":
+                    a, b = a[:8] + b"\0\0\0\0" + a[12:], b[:8] + b"\0\0\0\0" + b[12:]
+                if a != b:
+                    ctx.spec_failure(dict(case, variable_font=vf), "table %r of variable font %r differs between useProductionNames=True and False" % (tag, vf))
+            final, orig = on.getGlyphOrder(), off.getGlyphOrder()
+            if len(final) != len(orig) or len(set(final)) != len(final) or [n for n in final if re.search(r"[^0-9a-zA-Z_.]", n)]:
+                ctx.spec_failure(dict(case, variable_font=vf, final=final), "final names of %r not unique / legal / complete: %r" % (vf, final))
+                continue
+            for idx, n in enumerate(orig):
+                given = {masters[k]["lib"]["public.postscriptNames"].get(n) for k in inside[vf]}
+                if len(given) == 1 and None not in given and final[idx] != next(iter(given)):
+                    ctx.spec_failure(dict(case, variable_font=vf, glyph=n, final=final[idx]),
+                                     "variable font %r: glyph %r is named %r although every source inside it supplies the PostScript name %r" % (
+                                         vf, n, final[idx], next(iter(given))))
+                    break
 
 
 def compile_level(ctx):
